@@ -16,6 +16,7 @@ import (
 	"fmt"
 	"math/big"
 	"math/rand"
+	"net"
 	"time"
 
 	"google.golang.org/protobuf/proto"
@@ -23,8 +24,11 @@ import (
 	"github.com/scionproto/scion/pkg/addr"
 	cppb "github.com/scionproto/scion/pkg/proto/control_plane"
 	cryptopb "github.com/scionproto/scion/pkg/proto/crypto"
+	"github.com/scionproto/scion/pkg/scrypto/cppki"
+	"github.com/scionproto/scion/pkg/scrypto/signed"
 	seg "github.com/scionproto/scion/pkg/segment"
 	"github.com/scionproto/scion/private/segment/segverifier"
+	infra "github.com/scionproto/scion/private/segment/verifier"
 	"github.com/scionproto/scion/private/trust/compat"
 
 	"verifharness/internal/segs"
@@ -165,6 +169,35 @@ func malleate(der []byte) ([]byte, bool) {
 	return out, err == nil
 }
 
+// cancelVerifier delegates to the real verifier and cancels the request context after the k-th
+// successful call of Verify (a request that is abandoned half way through a segment).
+type cancelVerifier struct {
+	inner  infra.Verifier
+	n      *int
+	k      int
+	cancel func()
+}
+
+func (c *cancelVerifier) Verify(ctx context.Context, m *cryptopb.SignedMessage, ad ...[]byte) (*signed.Message, error) {
+	r, err := c.inner.Verify(ctx, m, ad...)
+	if err == nil {
+		*c.n++
+		if *c.n == c.k {
+			c.cancel()
+		}
+	}
+	return r, err
+}
+
+func (c *cancelVerifier) with(v infra.Verifier) infra.Verifier {
+	return &cancelVerifier{inner: v, n: c.n, k: c.k, cancel: c.cancel}
+}
+func (c *cancelVerifier) WithServer(s net.Addr) infra.Verifier { return c.with(c.inner.WithServer(s)) }
+func (c *cancelVerifier) WithIA(ia addr.IA) infra.Verifier     { return c.with(c.inner.WithIA(ia)) }
+func (c *cancelVerifier) WithValidity(v cppki.Validity) infra.Verifier {
+	return c.with(c.inner.WithValidity(v))
+}
+
 func flipBit(b []byte, pos int) {
 	b[pos/8] ^= 1 << uint(pos%8)
 }
@@ -231,8 +264,36 @@ func main() {
 		nev++
 		wr.Emit(vt.M{"ev": "reset", "case": nev})
 		wr.Emit(vt.M{"ev": "verify", "mut": mut, "ts": tsRe * 1000, "info": infoTag, "ents": tj,
-			"decoded": decoded, "wire": wire, "parsed": parsed, "accepted": accepted,
+			"decoded": decoded, "wire": wire, "parsed": parsed, "accepted": accepted, "ctx": "live",
 			"now": int(time.Since(t0) / time.Millisecond)})
+		// the same segment verified for a request that is abandoned: the context is cancelled before the
+		// call (k = 0) or right after the k-th AS entry was verified. Whatever happens, a segment
+		// that does not verify must not be reported as verified.
+		if parsed && nev%3 == 0 {
+			k := nev / 3 % (len(ents) + 1)
+			if k == len(ents) {
+				k = 0
+			}
+			cctx, cancel := context.WithCancel(ctx)
+			n := 0
+			cv := &cancelVerifier{inner: ver, n: &n, k: k, cancel: cancel}
+			if k == 0 {
+				cancel()
+			}
+			ps := &seg.PathSegment{Info: seg.Info{Raw: infoRaw, Timestamp: time.Unix(sinfo.Timestamp, 0),
+				SegmentID: uint16(sinfo.SegmentId)}}
+			for _, e := range ents {
+				ae, _ := seg.ASEntryFromPB(e.pb)
+				ps.ASEntries = append(ps.ASEntries, ae)
+			}
+			acc := segverifier.VerifySegment(cctx, cv, nil, ps) == nil
+			cancel()
+			nev++
+			wr.Emit(vt.M{"ev": "reset", "case": nev})
+			wr.Emit(vt.M{"ev": "verify", "mut": mut + "@cancel", "ts": tsRe * 1000, "info": infoTag, "ents": tj,
+				"decoded": decoded, "wire": acc, "parsed": parsed, "accepted": acc, "ctx": fmt.Sprintf("cancelled-after-%d", k),
+				"now": int(time.Since(t0) / time.Millisecond)})
+		}
 	}
 
 	for i := 0; i < *n; i++ {
